@@ -32,7 +32,7 @@ func periodicPatterns() [][]int {
 	return pats
 }
 
-func periodicOne(pat []int, total int, elide bool, sevens bool) {
+func periodicOne(pat []int, total int, elide bool, sevens bool, ins int) {
 	var kinds []ls.SMsg
 	for _, k := range periodicKinds {
 		for _, a := range alphabet {
@@ -48,6 +48,17 @@ func periodicOne(pat []int, total int, elide bool, sevens bool) {
 		}
 	}
 	wire := ls.SerializeLong(seq, elide)
+	if ins > 0 {
+		// a real-time byte after every ins-th byte (inside messages and sysex too)
+		w2 := make([]ls.WireByte, 0, 2*len(wire))
+		for i, w := range wire {
+			w2 = append(w2, w)
+			if i%ins == ins-1 {
+				w2 = append(w2, ls.WireByte{B: []byte{0xF8, 0xFE, 0xFA}[ins%3], Msg: -1})
+			}
+		}
+		wire = w2
+	}
 	raw := make([]byte, len(wire))
 	for i, w := range wire {
 		raw[i] = w.B
@@ -68,7 +79,7 @@ func periodicOne(pat []int, total int, elide bool, sevens bool) {
 		return
 	}
 	detail := func(what string) map[string]interface{} {
-		return map[string]interface{}{"kind": "periodic", "pattern": pat, "messages": total, "running_status": elide, "chunks_of_seven": sevens, "what": what}
+		return map[string]interface{}{"kind": "periodic", "pattern": pat, "messages": total, "running_status": elide, "chunks_of_seven": sevens, "realtime_every": ins, "what": what}
 	}
 	stamps := make([]int32, len(chunks))
 	pos := 0
@@ -112,7 +123,9 @@ func periodic(part, parts int) {
 		}
 		for _, elide := range []bool{true, false} {
 			for _, sevens := range []bool{false, true} {
-				periodicOne(pat, total, elide, sevens)
+				for _, ins := range []int{0, 3, 4, 5} {
+					periodicOne(pat, total, elide, sevens, ins)
+				}
 			}
 		}
 	}
@@ -123,7 +136,7 @@ func replayPeriodic(m map[string]interface{}) {
 	for _, x := range m["pattern"].([]interface{}) {
 		pat = append(pat, int(x.(float64)))
 	}
-	periodicOne(pat, int(m["messages"].(float64)), m["running_status"].(bool), m["chunks_of_seven"].(bool))
+	periodicOne(pat, int(m["messages"].(float64)), m["running_status"].(bool), m["chunks_of_seven"].(bool), int(m["realtime_every"].(float64)))
 }
 
 var _ = engine.Hex
